@@ -846,10 +846,10 @@ Qed.
 
 (* ================================================================== the deviations are real (computed witnesses) *)
 
-Definition q_only_stale := {| q_stale := true; q_fbsect := false; q_mkey := false; q_fmt := false |}.
-Definition q_only_fbsect := {| q_stale := false; q_fbsect := true; q_mkey := false; q_fmt := false |}.
-Definition q_only_mkey := {| q_stale := false; q_fbsect := false; q_mkey := true; q_fmt := false |}.
-Definition q_only_fmt := {| q_stale := false; q_fbsect := false; q_mkey := false; q_fmt := true |}.
+Definition q_only_stale := {| q_stale := true; q_fbsect := false; q_mkey := false; q_fmt := false; q_metanl := false |}.
+Definition q_only_fbsect := {| q_stale := false; q_fbsect := true; q_mkey := false; q_fmt := false; q_metanl := false |}.
+Definition q_only_mkey := {| q_stale := false; q_fbsect := false; q_mkey := true; q_fmt := false; q_metanl := false |}.
+Definition q_only_fmt := {| q_stale := false; q_fbsect := false; q_mkey := false; q_fmt := true; q_metanl := false |}.
 
 Definition w_stale_ops : list op :=
   [OUpdate (Upd "sa" "k1" "old" None "s" []) true; ODict (Some "sa") [("k1", "new"); ("zz", "2")] "dictionary" false].
@@ -882,3 +882,14 @@ Lemma fmt_witness :
   py_replace q_only_fmt [] None "{x:%Y}" = Err ErrValue /\
   py_replace all_off [] None "{x:>8}" = Ok "{x:>8}".
 Proof. vm_compute. repeat split; reflexivity. Qed.
+
+Definition q_only_metanl := {| q_stale := false; q_fbsect := false; q_mkey := false; q_fmt := false; q_metanl := true |}.
+
+Definition w_meta_cfg : config :=
+  run all_off [OUpdate (Upd "sa" "k1" "v" None "s" [("help", Some "some words of help that do not fit on one line")]) true]
+      (empty_config "cfg").
+
+Lemma metanl_witness :
+  answer all_off w_meta_cfg (QReadBack 60 true) = AContent (Ok (view_content (c_view w_meta_cfg))) /\
+  answer q_only_metanl w_meta_cfg (QReadBack 60 true) <> AContent (Ok (view_content (c_view w_meta_cfg))).
+Proof. split; [vm_compute; reflexivity|]. vm_compute. discriminate. Qed.
